@@ -32,7 +32,8 @@ def handleTcorr (toks : List String) : Option String := do
       let p := ((t * N + i) * d1 + a) * d2 + b
       if cplx = 0 then ⟨arr.getD p 0, 0⟩ else ⟨arr.getD (2 * p) 0, arr.getD (2 * p + 1) 0⟩
     let prog := Pms.Gen.TimeCorr.program
-    let times := (List.range T).map fun k => Pms.Gen.TimeCorr.timeAxis ts dt k
+    let times := (List.range T).map fun k =>
+      if mode = "spec" then specTime ts dt k else Pms.Gen.TimeCorr.timeAxis ts dt k
     -- scale for the conditioning guard: Σ |entries|²
     let scale : Rat := vs.foldl (fun s v => s + v * v) 0
     let finish (even : Bool) (raw : Nat → Rat) (r0 : Rat) : String :=
